@@ -33,6 +33,14 @@ fn gen_buffer(r: &mut Rng) -> (Vec<u8>, Vec<String>) {
                 b.extend(mk_footer(&toc, r.below(1000)));
                 tags.push("valid".into());
             }
+            3 if r.chance(1, 2) => { // magic + in-range length that covers earlier content (possibly earlier valid footers) + wrong hash
+                if b.len() >= 2 {
+                    let tl = r.range(1, b.len() as u64);
+                    let f = CommitFooter { toc_len: tl, toc_hash: [r.next() as u8; 32], generation: 77 };
+                    b.extend(f.encode());
+                    tags.push("badhash_overlong".into());
+                }
+            }
             3 => { // wrong hash
                 let toc = { let k_ = r.range(1, 20) as usize; filler(r, k_) };
                 b.extend(&toc);
